@@ -18,7 +18,9 @@ use crate::sim::{self, ProbeEv, Rng, PROBE_BUILD, PROBE_EXPAND};
 use crate::world::{GraphParams, World};
 use routee_compass::app::compass::compass_app::CompassApp;
 use routee_compass_core::model::frontier::{frontier_model::FrontierModel, frontier_model_error::FrontierModelError, frontier_model_service::FrontierModelService};
-use routee_compass_core::model::network::Edge;
+use routee_compass_core::model::network::{Edge, Vertex};
+use routee_compass_core::model::state::state_feature::StateFeature;
+use routee_compass_core::model::traversal::{traversal_model::TraversalModel, traversal_model_error::TraversalModelError, traversal_model_service::TraversalModelService};
 use routee_compass_core::model::state::state_model::StateModel;
 use routee_compass_core::model::traversal::state::state_variable::StateVar;
 use serde_json::{json, Value};
@@ -61,6 +63,33 @@ impl FrontierModel for ProbeFrontier {
     }
 }
 
+/// harness-side wrapper around the traversal model (a trait the code already has): reports every call of the
+/// cost estimate (origin vertex, destination vertex). A search asks for one estimate before it reads its start
+/// time, which is how the history of a k-shortest-paths query is split into its sub-searches (family yens).
+struct ProbeTraversalService {
+    inner: Arc<dyn TraversalModelService>,
+}
+struct ProbeTraversal {
+    inner: Arc<dyn TraversalModel>,
+}
+impl TraversalModelService for ProbeTraversalService {
+    fn build(&self, query: &Value) -> Result<Arc<dyn TraversalModel>, TraversalModelError> {
+        Ok(Arc::new(ProbeTraversal { inner: self.inner.build(query)? }))
+    }
+}
+impl TraversalModel for ProbeTraversal {
+    fn state_features(&self) -> Vec<(String, StateFeature)> {
+        self.inner.state_features()
+    }
+    fn traverse_edge(&self, trajectory: (&Vertex, &Edge, &Vertex), state: &mut Vec<StateVar>, state_model: &StateModel) -> Result<(), TraversalModelError> {
+        self.inner.traverse_edge(trajectory, state, state_model)
+    }
+    fn estimate_traversal(&self, od: (&Vertex, &Vertex), state: &mut Vec<StateVar>, state_model: &StateModel) -> Result<(), TraversalModelError> {
+        sim::probe(sim::PROBE_ESTIMATE, od.0.vertex_id.0 as u64, od.1.vertex_id.0 as u64);
+        self.inner.estimate_traversal(od, state, state_model)
+    }
+}
+
 /// an output plugin of the harness (a trait the code already has), first in the list: marks "the search of
 /// this query has returned successfully" in the event history (output plugins are not run for failed searches)
 struct SearchEndMarker;
@@ -76,11 +105,18 @@ impl routee_compass::plugin::output::output_plugin::OutputPlugin for SearchEndMa
     }
 }
 
-pub struct InstallProbes;
+pub struct InstallProbes {
+    /// also report cost-estimate calls (family yens)
+    pub estimates: bool,
+}
 impl Instrument for InstallProbes {
     fn after_build(&mut self, app: &mut CompassApp, _reference: bool) {
         let inner = app.search_app.frontier_model_service.clone();
         app.search_app.frontier_model_service = Arc::new(ProbeFrontierService { inner });
+        if self.estimates {
+            let inner = app.search_app.traversal_model_service.clone();
+            app.search_app.traversal_model_service = Arc::new(ProbeTraversalService { inner });
+        }
         app.output_plugins.insert(0, Arc::new(SearchEndMarker));
     }
     fn before_run(&mut self, batch_idx: usize) {
@@ -212,7 +248,29 @@ fn gen(seed: u64, family: &str, tier: Tier) -> Case {
             r.shuffle(&mut ms);
             json!({"type": "combined", "models": ms})
         }
-        "yens" => json!({"type": "iterations", "limit": r.range(1, 16)}),
+        // (round 6: every limit kind, not only iterations - each sub-search has a budget of its own)
+        "yens" => {
+            let it = json!({"type": "iterations", "limit": r.range(1, 16)});
+            let sz = json!({"type": "solution_size", "limit": r.range(1, 14)});
+            match r.below(6) {
+                0 | 1 => it,
+                2 => runtime,
+                3 => {
+                    let mut ms = vec![runtime, it];
+                    r.shuffle(&mut ms);
+                    json!({"type": "combined", "models": ms})
+                }
+                4 => sz,
+                _ => {
+                    let mut ms = vec![runtime, sz];
+                    if r.chance(0.5) {
+                        ms.push(it);
+                    }
+                    r.shuffle(&mut ms);
+                    json!({"type": "combined", "models": ms})
+                }
+            }
+        }
         "size" => size,
         _ => {
             let mut ms = vec![runtime];
@@ -305,7 +363,7 @@ fn gen(seed: u64, family: &str, tier: Tier) -> Case {
         simcfg.max_steps = 400_000;
         simcfg.max_alloc_bytes = 48 << 20;
     }
-    if family != "iterations" && family != "size" && family != "yens" {
+    if family != "iterations" && family != "size" && (family != "yens" || w.termination.to_string().contains("query_runtime")) {
         simcfg.faults = match r.below(3) {
             0 => sim::F_CLOCK_JUMP,
             1 => sim::F_THREAD_STALL,
@@ -665,7 +723,8 @@ fn judge(case: &Case, obs: &Obs) -> (Vec<Violation>, BTreeMap<String, u64>, bool
                 v.push(Violation { class: "iteration-limit-early".into(), detail: format!("query {}: stopped by the iteration limit {} although the unlimited search expands only {} times", qid, l, n) });
             }
         }
-        if let (Some(l), Some(s)) = (lim.size, s_unl) {
+        // (k-shortest-paths responses report the tree of the first search only; the spur searches grow their own)
+        if let (Some(l), Some(s), false) = (lim.size, s_unl, case.family == "yens" || case.family == "ksp") {
             if s > l && !terminated {
                 v.push(Violation { class: "size-limit-ignored".into(), detail: format!("query {}: the unlimited tree has {} entries, the size limit is {}, yet the search was not stopped", qid, s, l) });
             }
@@ -679,7 +738,7 @@ fn judge(case: &Case, obs: &Obs) -> (Vec<Violation>, BTreeMap<String, u64>, bool
             // (reads after the last search - progress reporting - open empty sub-histories, which are harmless
             // for limits >= 1). All searches run forward, so expansion groups are loop turns; edges cut by the
             // algorithm can hide a turn, which can only lose a detection, never raise one.
-            if let (Some(seg), Some(l), true) = (by_qid.get(&qid), lim.iterations, exact) {
+            if let (Some(seg), Some(l), true) = (by_qid.get(&qid), lim.iterations, exact && lim.runtimes.is_empty() && lim.size.is_none()) {
                 let mut subs: Vec<u64> = vec![];
                 let mut last_src = u64::MAX;
                 for e in &seg.events {
@@ -714,6 +773,104 @@ fn judge(case: &Case, obs: &Obs) -> (Vec<Violation>, BTreeMap<String, u64>, bool
                     if n_routes(&resp) != n_routes(&unlimited) {
                         v.push(Violation { class: "ksp-route-count-differs-from-unlimited".into(), detail: format!("query {}: {} route(s) under the limit, {} without", qid, n_routes(&resp), n_routes(&unlimited)) });
                     }
+                }
+            }
+            // Every limit kind (round 6): the history is split into sub-searches at their cost-estimate calls. A
+            // search asks for one estimate, then reads its start time, then - at loop turn 0 - once per runtime
+            // model; inside the loop an estimate is followed by at most one read per runtime model (the next turn's
+            // checks). So an estimate followed by more consecutive reads than there are runtime models opens a
+            // sub-search. Each one is walked with the reference model of the limits, its budget measured from its
+            // own start read, its tree modelled from its own admitted edges. (Edges cut by the algorithm never reach
+            // the frontier wrapper; they all leave the sub-search's source, so they can only hide loop turn 0 of a
+            // search that then finds nothing to pop.)
+            let other_error = resp.get("error").is_some() && !terminated;
+            if let (Some(seg), true, false) = (by_qid.get(&qid), exact, other_error) {
+                let closed = seg.events.iter().any(|e| e.kind == sim::PROBE_SEARCH_END);
+                let upto = seg.events.iter().position(|e| e.kind == sim::PROBE_SEARCH_END).unwrap_or(seg.events.len());
+                let evs = &seg.events[..upto];
+                let r_models = lim.runtimes.len();
+                let edges = &w.edges;
+                let mut subs: Vec<Vec<&ProbeEv>> = vec![];
+                // (an estimate that may open a sub-search which is stopped at its loop turn 0 - or may be the last
+                // estimate inside the loop of a search that is being stopped: the history cannot tell)
+                let mut ambiguous_tail = false;
+                for (k, e) in evs.iter().enumerate() {
+                    if e.kind == sim::PROBE_ESTIMATE {
+                        // inside the loop an estimate is asked for the vertex the edge just expanded leads to
+                        let in_loop_shape = k > 0 && evs[k - 1].kind == PROBE_EXPAND && edges.get(ev_edge(evs[k - 1])).map(|x| x.1 as u64) == Some(e.a);
+                        let reads = evs[k + 1..].iter().take_while(|x| x.kind == K_MONO).count();
+                        let expands_later = evs[k + 1..].iter().take_while(|x| x.kind != sim::PROBE_ESTIMATE).any(|x| x.kind == PROBE_EXPAND);
+                        if !in_loop_shape || (reads > r_models && expands_later) {
+                            subs.push(vec![]);
+                        } else if reads > r_models {
+                            ambiguous_tail = true;
+                        }
+                    } else if let Some(cur) = subs.last_mut() {
+                        cur.push(*e);
+                    }
+                }
+                let tree_key = |e: &ProbeEv| -> Option<u64> { if ev_admitted(e) { edges.get(ev_edge(e)).map(|x| x.1 as u64) } else { None } };
+                let n_subs = subs.len();
+                let mut all_completed = n_subs > 0;
+                if std::env::var_os("SIM_DEBUG_C10").is_some() {
+                    eprintln!("YENS qid={} resp_err={:?} closed={} subs={} events={:?}", qid, resp.get("error").map(|e| e.to_string().chars().take(200).collect::<String>()), closed, n_subs, evs.iter().map(|e| (e.kind, e.a, ev_edge(e), e.clock)).collect::<Vec<_>>());
+                }
+                for (k, sub) in subs.iter().enumerate() {
+                    bump("yens_subsearches_walked_all_limits", 1);
+                    // (a loop turn whose edges are all cut expands nothing: with a runtime check at every turn the clock
+                    // reads still count it. A sub-search's history is closed by the next sub-search's estimate or by the
+                    // "search returned" marker; the last one of a failed query is followed by progress reporting)
+                    match walk_from(sub, 0, &lim, true, Some(&tree_key), &|e: &ProbeEv| e.a, Some(k + 1 < n_subs || closed)) {
+                        Err(d) => {
+                            v.push(Violation { class: "limit-model-mismatch".into(), detail: format!("query {} (sub-search {} of {} of Yen's algorithm, termination {}): {}", qid, k, n_subs, case.world.termination, d) });
+                            all_completed = false;
+                            break;
+                        }
+                        Ok((Predicted::Terminated(reasons), turn, _)) => {
+                            all_completed = false;
+                            bump("yens_subsearch_walk_terminated", 1);
+                            if k > 0 {
+                                bump("yens_spur_search_walk_terminated", 1);
+                            }
+                            if reasons.contains(&"runtime") {
+                                bump("yens_runtime_budget_exhausted", 1);
+                                if k > 0 {
+                                    bump("yens_runtime_budget_exhausted_in_spur_search", 1);
+                                }
+                            }
+                            if !terminated {
+                                v.push(Violation { class: "ksp-exhausted-but-not-terminated".into(), detail: format!("query {}: sub-search {} exhausted its {} limit at loop turn {} but the response is not a termination error: {} route(s)", qid, k, reasons.join("+"), turn, resp["route"].as_array().map_or(1, |a| a.len())) });
+                            } else {
+                                for r in reasons.iter().filter(|r| !r.ends_with('?')) {
+                                    if !said.contains(r) {
+                                        v.push(Violation { class: "wrong-limit-named".into(), detail: format!("query {}: sub-search {} was stopped by the {} limit but the error names {:?}", qid, k, r, said) });
+                                    }
+                                }
+                                for s in &said {
+                                    if !reasons.iter().any(|r| r.trim_end_matches('?') == *s) {
+                                        v.push(Violation { class: "wrong-limit-named".into(), detail: format!("query {}: the error names the {} limit which sub-search {} had not exhausted (exhausted: {:?})", qid, s, k, reasons) });
+                                    }
+                                }
+                            }
+                            if k + 1 < n_subs {
+                                v.push(Violation { class: "ksp-search-after-termination".into(), detail: format!("query {}: sub-search {} exhausted its {} limit but {} more sub-search(es) were started", qid, k, reasons.join("+"), n_subs - k - 1) });
+                            }
+                            break;
+                        }
+                        Ok((Predicted::Completed, _, _)) => {
+                            bump("yens_subsearch_walk_completed", 1);
+                        }
+                        Ok((Predicted::Unknown, _, _)) => {
+                            bump("yens_subsearch_walk_undecided", 1);
+                            all_completed = false;
+                            break;
+                        }
+                    }
+                }
+                if all_completed && terminated && ambiguous_tail {
+                    bump("yens_walk_ambiguous_tail", 1);
+                } else if all_completed && terminated {
+                    v.push(Violation { class: "ksp-terminated-without-exhaustion".into(), detail: format!("query {} was stopped ({}) although none of its {} sub-searches exhausted a limit at any scheduled check{}", qid, err.chars().take(120).collect::<String>(), n_subs, if closed { "" } else { " (history not closed)" }) });
                 }
             }
             continue;
@@ -844,7 +1001,10 @@ fn judge(case: &Case, obs: &Obs) -> (Vec<Violation>, BTreeMap<String, u64>, bool
                             }
                         }
                         for s in &said {
-                            if !reasons.contains(s) && !reasons.iter().any(|r| r.trim_end_matches('?') == *s) {
+                            // (in a world with dead-end vertices the walk undercounts the loop turns: a limit that
+                            // counts turns may have been exhausted as well without the model seeing it; the tree model
+                            // does not depend on turns)
+                            if !reasons.contains(s) && !reasons.iter().any(|r| r.trim_end_matches('?') == *s) && (exact || *s == "size") {
                                 v.push(Violation { class: "wrong-limit-named".into(), detail: format!("query {}: the error names the {} limit which was not exhausted (exhausted: {:?})", qid, s, reasons) });
                             }
                         }
@@ -887,7 +1047,7 @@ impl Check for C10 {
         gen(seed, family, tier)
     }
     fn run(&self, case: &Case, fatal_fd: i32) -> ChildResult {
-        let obs = execute(case, ExecOpts { reference: true, trace: false, log_clock: true, explore_build: false }, Box::new(InstallProbes), fatal_fd);
+        let obs = execute(case, ExecOpts { reference: true, trace: false, log_clock: true, explore_build: false }, Box::new(InstallProbes { estimates: case.family == "yens" }), fatal_fd);
         let (violations, mut reach, nontrivial) = judge(case, &obs);
         reach.insert("preemptions".into(), obs.stats.preemptions);
         reach.insert("dead_end_turns_counted".into(), DEAD_END_TURNS.with(|c| c.get()));
